@@ -115,6 +115,7 @@ pub fn run_cli_inproc(args: &[String], plan: &FsPlan, max_ops: u64) -> (Outcome,
     (o, fs)
 }
 
+const STALE: &[u8] = b"stale bytes of an earlier run\x01\x00\x01\x01";
 const IN: &str = "in.bin";
 const OUT: &str = "out.bin";
 const CODE: &str = "code.alist";
@@ -163,7 +164,10 @@ pub fn eval_encode_sim(alist: &str, punct: &Option<String>, input: &[u8], seed: 
     let outpath = dir.join(OUT);
 
     let mut run = |plan: &FsPlan, stats: &mut Counters| -> Option<Violation> {
-        let _ = std::fs::remove_file(&outpath);
+        // the output path already holds something (an earlier run's codewords): afterwards it
+        // must hold the codewords of *this* input and nothing more (seeded change C20-r8a-3
+        // creates the file only when the first codeword is ready)
+        let _ = std::fs::write(&outpath, STALE);
         let (o, fs) = run_cli_inproc(&args, plan, max_ops);
         let got = std::fs::read(&outpath).unwrap_or_default();
         stats.inc("encode runs under simfs");
@@ -182,7 +186,8 @@ pub fn eval_encode_sim(alist: &str, punct: &Option<String>, input: &[u8], seed: 
                 Outcome::Ok => return Some(Violation::new("encode-fault-swallowed", format!("{}: an I/O error was injected and took effect, but the subcommand reported success ({} of {} output bytes present)", label(), got.len(), want.len()))),
                 Outcome::Panic(msg) => return Some(Violation::new("encode-fault-panic", format!("{}: panicked instead of returning the I/O error: {}", label(), msg))),
             }
-            if !want.starts_with(&got) {
+            // (a failure before the output file was opened leaves whatever was there untouched)
+            if !want.starts_with(&got) && got != STALE {
                 return Some(Violation::new("encode-fault-garbage", format!("{}: after the I/O error the output file holds bytes that are not a prefix of the codewords ({} bytes; {})", label(), got.len(), first_diff(&got, &want))));
             }
         } else {
@@ -205,7 +210,7 @@ pub fn eval_encode_sim(alist: &str, punct: &Option<String>, input: &[u8], seed: 
     };
 
     // 1. fault-free, recorded
-    let _ = std::fs::remove_file(&outpath);
+    let _ = std::fs::write(&outpath, STALE);
     let (o0, fs0) = run_cli_inproc(&args, &FsPlan::default(), max_ops);
     if fs0.overrun() {
         return Some(Violation::new("encode-runaway", format!("{}: more than {} file operations for {} input bytes — the subcommand does not come to an end", what, max_ops, input.len())));
@@ -242,7 +247,7 @@ pub fn eval_encode_sim(alist: &str, punct: &Option<String>, input: &[u8], seed: 
     let mut plans: Vec<FsPlan> = Vec::new();
     for (file, kind, faults) in [
         (IN, OpKind::Read, vec![Fault::Interrupted, Fault::Short(1), Fault::Io]),
-        (OUT, OpKind::Write, vec![Fault::Interrupted, Fault::Short(1), Fault::NoSpace, Fault::Io]),
+        (OUT, OpKind::Write, vec![Fault::Interrupted, Fault::Short(1), Fault::NoSpace, Fault::Io, Fault::BrokenPipe]),
         (CODE, OpKind::Read, vec![Fault::Interrupted, Fault::Short(1), Fault::Short(7), Fault::Io]),
         (OUT, OpKind::Flush, vec![Fault::Interrupted, Fault::NoSpace]),
         (OUT, OpKind::Sync, vec![Fault::Io]),
